@@ -125,13 +125,15 @@ func ApplyForURL(url string, timeout time.Duration, opts *Options) (*Result, err
 		return nil, fmt.Errorf("URL is not a HTML document")
 	}
 
-	// Apply distiller to response body
-	if opts == nil {
-		opts = &Options{}
+	// Apply distiller to response body, using the fetched address as page
+	// URL. The caller's options are copied, never modified.
+	urlOpts := Options{}
+	if opts != nil {
+		urlOpts = *opts
 	}
 
-	opts.OriginalURL = parsedURL
-	return ApplyForReader(resp.Body, opts)
+	urlOpts.OriginalURL = parsedURL
+	return ApplyForReader(resp.Body, &urlOpts)
 }
 
 // ApplyForFile runs distiller for the specified file.
